@@ -7,8 +7,8 @@
 set -u
 name=$1; patch=$2; demo=$3; meta=$4; shift 4
 export GOFLAGS=-mod=mod GOPROXY=off GOSUMDB=off GOTOOLCHAIN=local
-V=/verif; S=/tmp/mutv/$name
-out=$V/seeded/$name; mkdir -p $out
+V=${VERIF_DIR:-/verif}; S=/tmp/mutv/$name
+out=/verif/seeded/$name; mkdir -p $out
 rm -rf $S; mkdir -p /tmp/mutv
 git -C /repo worktree add -q --detach $S HEAD || exit 2
 res() { echo "$1" | tee -a $out/confirm.log; }
